@@ -23,20 +23,15 @@ Qed.
 Lemma app3_assoc (m x : string) : ((m ++ ".") ++ x = m ++ "." ++ x)%string.
 Proof. induction m as [|c m IH]; cbn [append]; [reflexivity|]. rewrite IH. reflexivity. Qed.
 
-Lemma gen_inner_none {St} ns (st : St) (g : St -> alias -> res St) :
-  (forall st a, g st a = Err TypeError) ->
-  py_for ns st g = if list_empty ns then Ok st else Err TypeError.
-Proof. intros H. destruct ns as [|a r]; cbn [py_for list_empty]; [reflexivity|]. rewrite H. reflexivity. Qed.
-
 (* the loop body of the translated _ast_get_imports_from_tree is taken from the
    generated definition itself (not copied), so the proof follows renamings *)
-Theorem gen_get_imports_eq body : gen_get_imports body = get_imports body.
+Theorem gen_get_imports_eq body : gen_get_imports body = Ok (get_imports body).
 Proof.
   unfold gen_get_imports, get_imports, py_for_enum.
   match goal with
   | |- context [py_for_enum_from 0 body ([], []) ?F] =>
       assert (H : forall body idx (st : gi_state),
-                 py_for_enum_from idx body st F = get_imports_from idx body st)
+                 py_for_enum_from idx body st F = Ok (get_imports_from idx body st))
   end.
   { clear body. induction body as [|s r IH]; intros idx [mdl names]; [reflexivity|].
     cbn [py_for_enum_from get_imports_from].
@@ -51,22 +46,19 @@ Proof.
         unfold add_import, add_entry, py_in, str_in. cbn [fst snd].
         destruct (existsb (String.eqb (fst a)) y); reflexivity.
     - (* ImportFrom *)
-      destruct m as [m|].
-      + match goal with
-        | |- context [py_for ns (mdl, names) ?G] =>
-            replace (py_for ns (mdl, names) G) with (Ok (fold_left (add_from idx m) ns (mdl, names)) : res gi_state)
-        end.
-        * rewrite (surjective_pairing (fold_left (add_from idx m) ns (mdl, names))). apply IH.
-        * symmetry. apply (py_for_ok (add_from idx m)). intros [x y] a.
-          unfold add_from, add_entry, py_in, str_in. cbn [fst snd]. rewrite app3_assoc.
-          destruct (existsb (String.eqb (m ++ "." ++ fst a)%string) y); reflexivity.
-      + rewrite gen_inner_none by (intros [x y] a; reflexivity).
-        destruct (list_empty ns); [apply IH|reflexivity]. }
-  rewrite H. destruct (get_imports_from 0 body ([], [])) as [[mdl names]|e] eqn:E; reflexivity.
+      destruct m as [m|]; [|apply IH].
+      unfold future_module. destruct (String.eqb m "__future__"); [apply IH|].
+      match goal with
+      | |- context [py_for ns (mdl, names) ?G] =>
+          replace (py_for ns (mdl, names) G) with (Ok (fold_left (add_from idx m) ns (mdl, names)) : res gi_state)
+      end.
+      + rewrite (surjective_pairing (fold_left (add_from idx m) ns (mdl, names))). apply IH.
+      + symmetry. apply (py_for_ok (add_from idx m)). intros [x y] a.
+        unfold add_from, is_star, add_entry, py_in, str_in. cbn [fst snd].
+        destruct (String.eqb (fst a) "*"); [reflexivity|]. rewrite app3_assoc.
+        destruct (existsb (String.eqb (m ++ "." ++ fst a)%string) y); reflexivity. }
+  rewrite H. rewrite (surjective_pairing (get_imports_from 0 body ([], []))). reflexivity.
 Qed.
 
-Theorem gen_select_eq S body : gen_select S body = select S body.
-Proof.
-  unfold gen_select, select. rewrite gen_get_imports_eq.
-  destruct (get_imports body) as [mdl|e]; [apply gen_find_modnames_eq|reflexivity].
-Qed.
+Theorem gen_select_eq S body : gen_select S body = Ok (select S body).
+Proof. unfold gen_select, select. rewrite gen_get_imports_eq. apply gen_find_modnames_eq. Qed.
